@@ -343,6 +343,9 @@ def run(prog, chk):
     chk.floor("R14.2", "Display impls scanned", ndisp, 45)
     chk.floor("R14.2", "Display loops", nl, 8)
 
+    field_coverage_rule(prog, chk, disp)
+    heredoc_rule(prog, chk, disp)
+
     # ---- R14.3 single printer ------------------------------------------------------------------------------
     chk.rule("R14.3", "exported functions (BASH_FUNC_…), declare -f and type print functions via Display of FunctionDefinition/FunctionBody")
     users = {
@@ -365,3 +368,175 @@ def run(prog, chk):
             chk.ok("R14.3", what, "formats the function through its Display impl", function=fn)
         else:
             chk.fail("R14.3", fn, "function-not-printed-via-display", "%s (%s) no longer formats a FunctionDefinition/FunctionBody through Display" % (fn, what))
+
+
+LOCATION_TYPES = ("brush_parser::source::SourceSpan", "brush_parser::source::SourcePosition", "brush_parser::source::SourcePositionOffset",
+                  "brush_parser::tokenizer::TokenLocation")
+# fields that Display may skip: the information is carried by another printed field (one reason each)
+UNPRINTED_BY_DESIGN = {
+    ("brush_parser::ast::IoHereDocument", "requires_expansion"):
+        "derived from the delimiter's quoting, which is printed verbatim as part of here_end (the re-parse recomputes the flag)",
+}
+
+
+def _self_aliases(b):
+    selfs = {1}
+    changed = True
+    while changed:
+        changed = False
+        for bl in b.blocks:
+            for st in bl.stmts:
+                if st.kind == 'a' and st.place.is_local() and st.place.local not in selfs:
+                    src = None
+                    if st.rv.kind in ('use', 'cast') and st.rv.ops[0].place is not None:
+                        src = st.rv.ops[0].place
+                    elif st.rv.kind == 'ref':
+                        src = st.rv.place
+                    if src is not None and src.local in selfs and not any(p[0] == 'f' for p in src.proj):
+                        selfs.add(st.place.local)
+                        changed = True
+    return selfs
+
+
+def _places(b):
+    for bl in b.blocks:
+        if bl.cleanup:
+            continue
+        for st in bl.stmts:
+            if st.kind == 'a':
+                if st.rv.place is not None:
+                    yield st.rv.place
+                for o in st.rv.ops:
+                    if o.place is not None:
+                        yield o.place
+        t = bl.term
+        for a in t.args:
+            if a.place is not None:
+                yield a.place
+        if t.kind == 'switch' and t.discr.place is not None:
+            yield t.discr.place
+
+
+def field_coverage_rule(prog, chk, disp):
+    """R14.4: a node's printer reads every field of the node (all variants), except source locations and the reviewed
+    derived fields. A field that is never read cannot influence the printed text, so two functions differing in it print
+    alike and the printed text re-parses to a different function than the one that was printed."""
+    chk.rule("R14.4", "every Display impl of an AST node reads every field of every variant of its node (source locations and reviewed derived "
+                      "fields excepted): nothing that distinguishes two functions is dropped by the printer")
+    nfields = 0
+    for ty, b in sorted(disp.items()):
+        adt = prog.adts.get(ty)
+        if adt is None:
+            chk.fail("R14.4", b.name, "adt-missing", "no type facts for %s" % ty, nontrivial=False)
+            continue
+        selfs = _self_aliases(b)
+        read = set()
+        for pl in _places(b):
+            if pl.local in selfs:
+                var = None
+                for pr in pl.proj:
+                    if pr[0] == 'd':
+                        var = pr[1] if len(pr) > 1 else None
+                    if pr[0] == 'f':
+                        read.add((var if adt['kind'] == 'enum' else None, pr[3]))
+                        break
+        for v in adt['variants']:
+            for f in v['fields']:
+                fty = f['ty']
+                if any(lt in fty for lt in LOCATION_TYPES):
+                    continue
+                nfields += 1
+                key = (v['name'] if adt['kind'] == 'enum' else None, f['name'])
+                label = "%s%s.%s" % (ty.rsplit("::", 1)[-1], "::" + v['name'] if adt['kind'] == 'enum' else "", f['name'])
+                if key in read or (None, f['name']) in read:
+                    chk.ok("R14.4", "printed:" + label, "field read by the printer", function=b.name)
+                elif (ty, f['name']) in UNPRINTED_BY_DESIGN:
+                    chk.ok("R14.4", "derived:" + label, UNPRINTED_BY_DESIGN[(ty, f['name'])], nontrivial=False, function=b.name)
+                else:
+                    chk.fail("R14.4", b.name, "field-not-printed:" + label,
+                             "Display for %s never reads field `%s` (%s): whatever it holds is missing from every text produced through this impl "
+                             "(declare -f / type / exported BASH_FUNC_ bodies), so the printed function re-parses to a different one"
+                             % (ty.rsplit("::", 1)[-1], f['name'], fty[:70]))
+    chk.floor("R14.4", "printable fields of AST nodes", nfields, 90)
+
+
+def heredoc_rule(prog, chk, disp):
+    """R14.5: a here-document inside a printed function keeps its body and terminator byte-exact: (a) the terminator line is the
+    delimiter with its quoting removed (the reader compares body lines with the unquoted tag); (b) no printer on the way from
+    FunctionDefinition to IoHereDocument writes through an indenting adaptor (the body lines and the terminator would be shifted)."""
+    chk.rule("R14.5", "here-documents in printed functions: terminator printed unquoted; body and terminator not written through indenter::Indented")
+    hd = disp.get(AST + "IoHereDocument")
+    if not chk.anchor("R14.5", AST + "IoHereDocument Display", hd):
+        return
+    c = cfg_of(hd)
+    d = defs_of(hd)
+    from dataflow import flow_back
+    ends = []
+    for bb, t in hd.calls():
+        if (t.callee or "").endswith("Argument::new_display") and t.args:
+            fl = flow_back(hd, d, t.args[0])
+            if any("here_end" in f.field_path() for f in fl):
+                ends.append((bb, t, fl))
+    docs = [bb for bb, t in hd.calls() if (t.callee or "").endswith("Argument::new_display") and t.args
+            and any("doc" in f.field_path() for f in flow_back(hd, d, t.args[0]))]
+    if len(ends) < 2 or not docs:
+        chk.fail("R14.5", hd.name, "heredoc-printer-shape", "expected the delimiter to be printed before and after the body (found %d delimiter / %d body arguments)" % (len(ends), len(docs)))
+    else:
+        closing = [e for e in ends if all(c.dominates(x, e[0]) for x in docs)]
+        raw = [e for e in closing if not any("unquote" in v for f in e[2] for v in f.via)]
+        if raw:
+            chk.fail("R14.5", hd.name, "heredoc-terminator-printed-quoted",
+                     "the terminator line after the body is Display of here_end, i.e. the delimiter as written (`'EOF'`); the reader ends a here-document at a "
+                     "line equal to the delimiter with quotes removed (`EOF`), so a printed function with <<'EOF' never terminates its document when re-read")
+        else:
+            chk.ok("R14.5", "terminator-unquoted", "closing delimiter goes through quote removal", function=hd.name)
+    # (b) indenting adaptor on a path to IoHereDocument
+    def elem_types(b, only_indented):
+        out = set()
+        for bb, t in b.calls():
+            if (t.callee or "").endswith("Argument::new_display") and t.gen_args:
+                if only_indented:
+                    # the write_fmt that consumes these arguments has an indenter::Indented receiver
+                    from dataflow import forward_taint
+                    tl = forward_taint(b, {t.dest.local}) if t.dest is not None else set()
+                    ind = False
+                    for b2, t2 in b.calls():
+                        if (t2.best_callee() or t2.callee or "").endswith("::write_fmt") and any(a.place is not None and a.place.local in tl for a in t2.args):
+                            rty = b.local_ty(t2.args[0].place.local) if t2.args and t2.args[0].place is not None else ""
+                            if "indenter::Indented" in rty or "indenter::Indented" in (t2.best_callee() or ""):
+                                ind = True
+                    if not ind:
+                        continue
+                for m in re.finditer(r"brush_parser::ast::(\w+)", t.gen_args):
+                    out.add(AST + m.group(1))
+        return out
+    reach_fn = set()
+    stack = [AST + "FunctionDefinition"]
+    while stack:
+        x = stack.pop()
+        if x in reach_fn or x not in disp:
+            continue
+        reach_fn.add(x)
+        stack.extend(elem_types(disp[x], False))
+    offenders = []
+    for ty in sorted(reach_fn):
+        for e in elem_types(disp[ty], True):
+            # does e reach IoHereDocument?
+            seen = set()
+            st2 = [e]
+            while st2:
+                y = st2.pop()
+                if y in seen or y not in disp:
+                    continue
+                seen.add(y)
+                st2.extend(elem_types(disp[y], False))
+            if AST + "IoHereDocument" in seen:
+                offenders.append((ty, e))
+    chk.note("indenting_printers_above_heredocs", ["%s→%s" % (a.rsplit("::", 1)[-1], b2.rsplit("::", 1)[-1]) for a, b2 in offenders])
+    if offenders:
+        chk.fail("R14.5", hd.name, "heredoc-body-indented",
+                 "here-document bodies are written through indenter::Indented (%s): every body line and the terminator are shifted by the nesting "
+                 "indentation, so the document's text changes and (without <<- and tabs) the terminator is never recognised on re-read"
+                 % ", ".join("%s prints %s indented" % (a.rsplit("::", 1)[-1], b2.rsplit("::", 1)[-1]) for a, b2 in offenders[:4]))
+    else:
+        chk.ok("R14.5", "heredoc-not-indented", "no indenting adaptor between FunctionDefinition and IoHereDocument", function=hd.name)
